@@ -151,3 +151,27 @@ Fixpoint fields_ok (dtys : list ty) (flds : list ty) : bool :=
   end.
 
 Definition decl_ok (d : decl) : bool := forallb (fun k => fields_ok [] (c_fields k)) (d_classes d).
+
+(* ---------- declarations whose creation cannot fail for reasons other than the random source ---------- *)
+(* no empty option lists (choice over nothing), no refinement that may reject its siblings' values *)
+Definition nonempty {A} (l : list A) : bool := match l with [] => false | _ => true end.
+
+Fixpoint ty_live (t : ty) : bool :=
+  match t with
+  | TBase _ | TSym _ => true
+  | TList t' => ty_live t'
+  | TTuple ts => forallb ty_live ts
+  | TUnion ts => nonempty ts && forallb ty_live ts
+  | TAnn base m =>
+      ty_live base &&
+      match m with
+      | MIntList xs => nonempty xs
+      | MFloatList xs => nonempty xs
+      | MVarRange opts => nonempty opts
+      | MStringSize _ _ alphabet => nonempty alphabet
+      | MDependent _ DVarRangeOf => false       (* VarRange(list(a)) raises SynthesisException for an empty sibling list *)
+      | _ => true
+      end
+  end.
+
+Definition decl_live (d : decl) : bool := forallb (fun k => forallb ty_live (c_fields k)) (d_classes d).
